@@ -108,6 +108,10 @@ type Rule struct {
 	// event (e.g. a comparison of two interesting values). It is called for the
 	// condition of an If when taking the edge with the given truth value.
 	OnBranch func(x *Ctx, s State, cond ssa.Value, taken bool) (State, string)
+	// GoAsCall: a go statement whose callee reaches tracked events is explored as a call made at the spawn point
+	// (instead of making the run undecided). For rules whose verdicts depend on facts that do not change after the
+	// spawn (immutable flags).
+	GoAsCall bool
 	// KeyByChain reports the same instruction separately per call chain.
 	KeyByChain bool
 	// MaxConfigs bounds the exploration (0 = default).
@@ -975,6 +979,17 @@ func (e *Engine) stepBlock(c0 *config, sum *summary, isRoot bool) []*config {
 				n.defers = append(append([]*ssa.Defer(nil), c.defers...), instr)
 				next = append(next, n)
 			case *ssa.Go:
+				if e.R.GoAsCall && (len(e.match(instr)) > 0 || e.anyRelevantCallee(instr)) {
+					// the goroutine may run at once: its events are taken in the state of the spawn point (exact for
+					// rules whose state only grows along a path and whose events need bits that are already set)
+					for _, n := range e.doCall(c, instr) {
+						m := c.clone()
+						m.s = n.s
+						m.facts = n.facts
+						next = append(next, m)
+					}
+					continue
+				}
 				if len(e.match(instr)) > 0 || e.anyRelevantCallee(instr) {
 					e.Undecided = append(e.Undecided, "go statement reaching tracked events in "+c.fn.String()+" at "+e.PosStr(instr.Pos()))
 				}
@@ -1609,7 +1624,9 @@ func (e *Engine) doCall(c *config, call ssa.CallInstruction) []*config {
 			ws = nws
 		}
 		for _, w := range ws {
-			if _, isDefer := call.(*ssa.Defer); !isDefer {
+			_, isDefer := call.(*ssa.Defer)
+			_, isGo := call.(*ssa.Go)
+			if !isDefer && !isGo {
 				e.setCallResults(w.c, call, w.rets)
 			}
 			out = append(out, w.c)
